@@ -172,6 +172,9 @@ var sessionKinds = []struct {
 	{"mitm(good.test)", "good.test", true, false},
 	{"mitm(wrongname.test)", "wrongname.test", true, true},
 	{"mitm(expired.test)", "expired.test", true, true},
+	// another spelling of the excluded host: the exclusion rule is a regular expression matched against the host
+	// as written, this spelling is not excluded - and says nothing about the spelling that is
+	{"mitm(PASSTHROUGH.TEST)", "PASSTHROUGH.TEST", true, false},
 }
 
 // sessionsScenario: MITM with one excluded host, optionally behind an HTTP or HTTPS upstream proxy; every
@@ -209,7 +212,7 @@ func sessionsScenario(x *explore.X, n int) {
 	}
 	cfgFor := func(authority string) *tls.Config {
 		h, _, _ := net.SplitHostPort(authority)
-		l, ok := leaves[h]
+		l, ok := leaves[strings.ToLower(h)]
 		if !ok {
 			return nil
 		}
@@ -237,7 +240,7 @@ func sessionsScenario(x *explore.X, n int) {
 			}
 			return world.UpstreamProxyThenTLS(p, outer, cfgFor)
 		}
-		p := servers[host+":443"].Accept()
+		p := servers[strings.ToLower(host)+":443"].Accept()
 		if p == nil {
 			return nil
 		}
